@@ -235,6 +235,7 @@ def scen_filter(cfg):
         else:
             want = {(n1, n2) for (n1, n2) in conns if n1 in sel and n2 in sel}
         same_cells = all(out.vertices[n] is g.vertices[n] for n in out.vertices) and all(out.edges[c] is g.edges[c] for c in out.edges)
+        source_intact = sorted(g.vertices.keys()) == names and set(g.edges.keys()) == set(conns)  # filtering returns a new graph, the filtered one is unchanged
         # EpisodeRecord.filter
         def nr(n):
             ins = {s: base.InputRecord(info=None, messages=None) for (s, t) in conns if t == n}
@@ -249,6 +250,8 @@ def scen_filter(cfg):
             want_r = {(n1, n2) for (n1, n2) in conns if n1 in sel and n2 in sel}
         return {
             "Graph.filter keeps precisely the selected nodes and the connections among them (per flag); kept arrays are the originals": sorted(out.vertices.keys()) == sorted(sel) and set(out.edges.keys()) == want and same_cells,
+            "Graph.filter / EpisodeRecord.filter leave the object they are applied to unchanged": source_intact and sorted(rec.nodes.keys()) == names
+            and all(set(rec.nodes[n].inputs.keys()) == {s for (s, t) in conns if t == n} for n in names),
             "EpisodeRecord.filter keeps precisely the selected nodes and the connections among them (per flag), infos filtered alike": sorted(rout.nodes.keys()) == sorted(sel) and got_r == want_r
             and all(set(v.info.inputs.keys()) == set(v.inputs.keys()) for v in rout.nodes.values()),
         }
